@@ -8,10 +8,10 @@ random walk, round-robin, delay-bounded).  Every trace is (a) judged by the Lean
 (Spec/Aio.lean, `aio-judge`) => VIOLATION with replay, and (b) for the generic provider, replayed
 against the Lean model as an acceptor (`aio-accept`, trace inclusion) => correspondence."""
 import os, time, json
-from .. import core, build, lean, sim
+from .. import core, build, lean, sim, extract
 
 PROP = "C02"
-MODULES = ["NngModel.Props.C02"]
+MODULES = ["NngModel.Props.C02", "NngModel.Props.C02Expire"]
 TMO = ["5", "11", "21", "inf", "inf", "def", "0"]
 ODD = [5, 11, 21, 31]
 EVEN = [2, 6, 12, 22, 40]
@@ -367,6 +367,12 @@ def run(tier, seed, replay=None):
     st = lean.prepare(MODULES)
     core.log(PROP, f"lean: {len(st.discharged)}/{len(st.theorems)} theorems re-checked; extract {st.extract_count} constants "
                    f"(changed: {st.extract_changed}); {st.build_s:.1f}s")
+    if replay and json.load(open(replay)).get("sub") == "expire":
+        from . import c02_expire
+        ecov, eviol = c02_expire.run_part(tier, seed, st, json.load(open(replay)), batch=extract.generate()[0]["expireBatch"][0])
+        for tag, payload, no_input in eviol:
+            v.violation(tag, payload, no_input=no_input)
+        return v.finish()
     try:
         exe = sim.build_sim("s_aio", ["s_aio.c"])
     except build.BuildError as e:
@@ -374,7 +380,6 @@ def run(tier, seed, replay=None):
         core.write_evidence(PROP, tier, seed, "proof", {"obligations": max(1, len(st.theorems)), "discharged": 0, "checker_cmd": "lake build",
                             "trusted_base": [], "explanation": "implementation or harness does not build"}, [], time.time() - t0, 1)
         return v.finish()
-    from .. import extract
     consts = extract.consts()
     fix_expire, fix_abort, fix_dial = (consts[k][0] for k in ("aioFixExpire", "aioFixAbort", "aioDialerHonoursStart"))
     core.log(PROP, f"tree: F14 repair {'present' if fix_expire else 'absent'}, abort-result repair {'present' if fix_abort else 'absent'}, "
@@ -500,6 +505,18 @@ def run(tier, seed, replay=None):
             payload["ops"] = mc.lines(ms)
             v.violation("judge-" + _re.sub(r"[^A-Za-z0-9]+", "_", sig)[:28].strip("_"), payload)
             found_input = True
+    # timer clause for many aios (more than one NNI_EXPIRE_BATCH due at once): Props/C02Expire.lean + harness/r_expire.c
+    from . import c02_expire
+    rp_ = json.load(open(replay)) if replay else None
+    if rp_ is None or rp_.get("sub") == c02_expire.SUB:
+        ecov, eviol = c02_expire.run_part(tier, seed, st, rp_ if rp_ and rp_.get("sub") == c02_expire.SUB else None,
+                                          batch=extract.generate()[0]["expireBatch"][0])
+        core.log(PROP, f"expire part: {ecov['cases']} configurations, {ecov['aios']} aios, bad {ecov['bad']}, max lateness {ecov['max_late_ms']} ms")
+        for tag, payload, no_input in eviol:
+            v.violation(tag, payload, no_input=no_input)
+            found_input = found_input or not no_input
+    else:
+        ecov = {}
     if not found_input:
         if rejects:
             c, s, r = min(rejects, key=lambda x: x[0].nops())
@@ -534,7 +551,7 @@ def run(tier, seed, replay=None):
            "schedules_per_case": 20, "op_histogram": op_hist, "event_histogram": ev_hist, "violation_histogram": clause_hist,
            "samples": samples, "judge_violations": sum(len(x) for x in viol.values()), "acceptor_rejections": len(rejects), "crashes": len(crashes),
            "acceptor_peak_states": peak, "tree_config": {"aioFixExpire": fix_expire, "aioFixAbort": fix_abort, "aioDialerHonoursStart": fix_dial},
-           "extract_changed": st.extract_changed}
+           "extract_changed": st.extract_changed, "expire_part": ecov, "expire_rule": c02_expire.RULE}
     core.write_evidence(PROP, tier, seed, "proof", cov,
                         ["SIM interleaves at lock granularity: unlocked reads of a_result/a_count and true data races are invisible",
                          "only the user-visible aio is monitored; library-internal aios are exercised but not judged",
